@@ -386,7 +386,13 @@ fn contexts(defs: &dmntk_model::model::Definitions) -> Vec<FeelContext> {
   };
   let mut typed = FeelContext::default();
   let mut nums = FeelContext::default();
+  // values of the wrong shape for any declared type: empty and nested-empty collections and contexts, nulls
+  let odd_texts = ["[]", "{}", "[[]]", "{a: {}, b: []}", "[null]", "null"];
+  let mut odd: Vec<FeelContext> = odd_texts.iter().map(|_| FeelContext::default()).collect();
   for id in defs.input_data() {
+    for (k, t) in odd_texts.iter().enumerate() {
+      odd[k].set_entry(&id.name().into(), ev(t));
+    }
     let name: Name = id.name().into();
     let v = match id.variable().type_ref().as_deref() {
       Some("string") => ev("\"a\""),
@@ -401,7 +407,9 @@ fn contexts(defs: &dmntk_model::model::Definitions) -> Vec<FeelContext> {
     typed.set_entry(&name, v);
     nums.set_entry(&name, ev("[1, 2]"));
   }
-  vec![FeelContext::default(), typed, nums]
+  let mut all = vec![FeelContext::default(), typed, nums];
+  all.extend(odd);
+  all
 }
 
 fn run_one(text: &str, only: Option<&str>, progress: &mut dyn FnMut(&str)) -> String {
